@@ -54,7 +54,9 @@ let () =
       | "N" :: id :: ctr0 :: nex :: rest ->
           Printf.printf "N %s %s\n" id (run_n ctr0 nex (match rest with o :: _ -> o | [] -> ""))
       | "A" :: id :: cursor :: rest ->
-          let used = List.map n_of_string (List.filter (fun x -> x <> "") (split_on ',' (match rest with u :: _ -> u | [] -> ""))) in
+          (* a trailing 'e' marks an expired session: its identifier is still in use *)
+          let strip x = if String.length x > 0 && x.[String.length x - 1] = 'e' then String.sub x 0 (String.length x - 1) else x in
+          let used = List.map (fun x -> n_of_string (strip x)) (List.filter (fun x -> x <> "") (split_on ',' (match rest with u :: _ -> u | [] -> ""))) in
           (match next_sess_id (nat_of (List.length used + 1)) (n_of_string cursor) used with
            | Some (i, c) -> Printf.printf "A %s %s %s\n" id (string_of_n i) (string_of_n c)
            | None -> Printf.printf "A %s none\n" id)
